@@ -13,9 +13,9 @@
 From Coq Require Import List String ZArith Bool Arith Lia.
 Import ListNotations.
 From KV Require Import Base.Bytes Model.Ast Model.Value Model.Eval Model.EvalVec Model.ScanProj
-                       Model.LimitLazy Model.SelectPlans
+                       Model.LimitLazy Model.AggregateLazy Model.SelectPlans
                        Proofs.EvalVecProofs Proofs.ScanProjProofs Proofs.BatchRowProofs
-                       Proofs.LimitLazyProofs.
+                       Proofs.LimitLazyProofs Proofs.AggregateLazyProofs.
 From KV Require Model.Limit Model.Order Model.Aggregate Spec.Group
                 Proofs.LimitProofs Proofs.OrderProofs Proofs.AggregateProofs.
 Local Open Scope nat_scope.
@@ -525,8 +525,10 @@ Variable bits_f : F -> bytes.
 Variable json_f : F -> option bytes.
 Variable parse_f : bytes -> option F.
 Variable json_s : bytes -> bytes.
-Variable obs_row : P -> res (Group.pobs F).
-Variable obs_batch : list P -> res (list (Group.pobs F)).
+Variable T : Type.
+Variable t0 : T.
+Variable obs_row : Group.plan F -> T -> P -> res (Group.pobs F * T).
+Variable obs_batch : Group.plan F -> T -> list P -> res (list (Group.pobs F) * T).
 
 Local Notation gvalue := (Group.value F).
 Local Notation pobs := (Group.pobs F).
@@ -599,15 +601,83 @@ Qed.
 Lemma run_row_sim (p : Group.plan F) obs' obs : Forall2 pobs_sim obs' obs -> m_run_row p obs' = m_run_row p obs.
 Proof. intros H. unfold Aggregate.run_row. now rewrite (prepare_sim p obs' obs H). Qed.
 
-(* the glue hypotheses: FilterBatch is pointwise Filter, and what prepareBatch evaluates on a
-   chunk is pointwise what prepare evaluates on each of its pairs, up to string / []byte in the
-   GROUP BY values *)
-Hypothesis Hf : forall c bs, fbatch c = Ok bs -> Forall2 (fun kv b => frow kv = Ok b) c bs.
-Hypothesis Hobs : forall c os, obs_batch c = Ok os ->
-  Forall2 (fun kv o => exists o', obs_row kv = Ok o' /\ pobs_sim o' o) c os.
+(* ---------------------------------------------------------------- the lazy observation, any evaluators *)
+Section LazyObsProofs.
+Variable eval_g : P -> res (list gvalue).
+Variable batch_g : list P -> res (list (list gvalue)).
+Variable eval_k : P -> res (list gvalue).
+Variable eval_a : (nat -> bool) -> P -> res (list gvalue).
+(* batchGetAggrKeys yields, per pair, the GROUP BY values getAggrKey yields, up to string / []byte *)
+Hypothesis Hg : forall c gss, batch_g c = Ok gss ->
+  Forall2 (fun kv g => exists g', eval_g kv = Ok g' /\ map gnorm g' = map gnorm g) c gss.
 
-Local Notation agg_row := (agg_row P frow F fadd fsub fmul fdiv fltb fis0 of_Z to_Z fmt_f bits_f json_f parse_f json_s obs_row).
-Local Notation agg_batch := (agg_batch P fbatch F fadd fsub fmul fdiv fltb fis0 of_Z to_Z fmt_f bits_f json_f parse_f json_s obs_batch).
+Local Notation l_tail := (lobs_tail fmt_f bits_f eval_k eval_a).
+Local Notation l_row := (lobs_row fmt_f bits_f eval_g eval_k eval_a).
+Local Notation l_zip := (lobs_zip fmt_f bits_f eval_k eval_a).
+Local Notation l_batch := (lobs_batch fmt_f bits_f batch_g eval_k eval_a).
+
+Lemma lkey_gnorm (p : Group.plan F) g' g :
+  map gnorm g' = map gnorm g -> lkey fmt_f bits_f p g' = lkey fmt_f bits_f p g.
+Proof. intros H. unfold lkey. apply key_sim. exact H. Qed.
+
+Lemma lobs_tail_sim (p : Group.plan F) t kv g' g o t' :
+  map gnorm g' = map gnorm g -> l_tail p t kv g = Ok (o, t') ->
+  exists o', l_tail p t kv g' = Ok (o', t') /\ pobs_sim o' o.
+Proof.
+  intros Hn H. unfold lobs_tail in *. rewrite (lkey_gnorm p g' g Hn).
+  destruct (seen_mem (lkey fmt_f bits_f p g) t).
+  - apply bind_ok' in H. destruct H as (a & Ea & H). inversion H; subst o t'.
+    rewrite Ea. cbn [bind]. eexists. split; [reflexivity|].
+    unfold pobs_sim. cbn [Group.p_g Group.p_k Group.p_a]. auto.
+  - apply bind_ok' in H. destruct H as (k & Ek & H).
+    apply bind_ok' in H. destruct H as (a & Ea & H). inversion H; subst o t'.
+    rewrite Ek. cbn [bind]. rewrite Ea. cbn [bind]. eexists. split; [reflexivity|].
+    unfold pobs_sim. cbn [Group.p_g Group.p_k Group.p_a]. auto.
+Qed.
+
+Lemma lobs_zip_sim (p : Group.plan F) : forall c gss,
+  Forall2 (fun kv g => exists g', (if Group.pl_all p then Ok [] else eval_g kv) = Ok g' /\
+                                  map gnorm g' = map gnorm g) c gss ->
+  forall t os t', l_zip p t c gss = Ok (os, t') ->
+  exists os', smap_res (l_row p) t c = Ok (os', t') /\ Forall2 pobs_sim os' os.
+Proof.
+  induction 1 as [|kv g c gss (g' & Eg & Hn) _ IH]; intros t os t' H; cbn [lobs_zip] in H.
+  - inversion H; subst os t'. exists []. split; [reflexivity | constructor].
+  - apply bind_ok' in H. destruct H as ([o t1] & Et & H). cbn [fst snd] in H.
+    apply bind_ok' in H. destruct H as ([os1 t2] & Ez & H). cbn [fst snd] in H.
+    inversion H; subst os t'.
+    destruct (lobs_tail_sim p t kv g' g o t1 Hn Et) as (o' & Et' & Ho).
+    destruct (IH _ _ _ Ez) as (os' & Es & Fo).
+    exists (o' :: os'). split; [|constructor; assumption].
+    cbn [smap_res]. unfold lobs_row at 1. rewrite Eg. cbn [bind]. rewrite Et'. cbn [bind fst snd].
+    rewrite Es. reflexivity.
+Qed.
+
+(* one iteration of prepareBatch succeeded => the iterations of prepare on the pairs of the chunk
+   succeed, from the same keys seen to the same keys seen, with the same observations up to
+   string / []byte in the GROUP BY values *)
+Theorem lobs_batch_ok (p : Group.plan F) t c os t' : l_batch p t c = Ok (os, t') ->
+  exists os', smap_res (l_row p) t c = Ok (os', t') /\ Forall2 pobs_sim os' os.
+Proof.
+  intros H. unfold lobs_batch in H. apply bind_ok' in H. destruct H as (gss & Eg & H).
+  apply (lobs_zip_sim p c gss); [|exact H].
+  destruct (Group.pl_all p).
+  - inversion Eg; subst gss. clear. induction c as [|kv c IH]; cbn [map]; constructor; [|exact IH].
+    exists []. split; reflexivity.
+  - exact (Hg c gss Eg).
+Qed.
+
+End LazyObsProofs.
+
+(* the glue hypotheses: FilterBatch is pointwise Filter, and what prepareBatch evaluates on a
+   chunk is what prepare evaluates on its pairs one after the other (same keys seen before and
+   after), up to string / []byte in the GROUP BY values *)
+Hypothesis Hf : forall c bs, fbatch c = Ok bs -> Forall2 (fun kv b => frow kv = Ok b) c bs.
+Hypothesis Hobs : forall p t c os t', obs_batch p t c = Ok (os, t') ->
+  exists os', smap_res (obs_row p) t c = Ok (os', t') /\ Forall2 pobs_sim os' os.
+
+Local Notation agg_row := (agg_row P frow F fadd fsub fmul fdiv fltb fis0 of_Z to_Z fmt_f bits_f json_f parse_f json_s T t0 obs_row).
+Local Notation agg_batch := (agg_batch P fbatch F fadd fsub fmul fdiv fltb fis0 of_Z to_Z fmt_f bits_f json_f parse_f json_s T t0 obs_batch).
 
 (* GROUP BY / aggregates, with or without the LIMIT pushed into the AggregatePlan: the rows
    are EQUAL (Model/Aggregate.v's values, no identification needed) *)
@@ -615,14 +685,12 @@ Theorem agg_batch_row B (p : Group.plan F) sl rows :
   1 <= B -> agg_batch B p sl = Ok rows -> agg_row p sl = Ok rows.
 Proof.
   intros HB H. unfold SelectPlans.agg_batch, SelectPlans.agg_row in *.
-  apply bind_ok' in H. destruct H as (chunks & Ed & H). apply of_exec_ok in H.
-  destruct (scan_proj_batch_row P pobs frow fbatch obs_row obs_batch pobs_sim Hf Hobs B sl chunks HB Ed)
-    as (obs' & Er & Fo & _).
+  apply bind_ok' in H. destruct H as (chunks & Ed & H).
+  destruct (sdrain_batch_row P pobs T frow fbatch (obs_row p) (obs_batch p) pobs_sim Hf (Hobs p) B t0 sl chunks HB Ed)
+    as (obs' & Er & Fo).
   rewrite Er. cbn [bind].
-  rewrite (run_row_sim p obs' _ Fo).
-  rewrite <- (@AggregateProofs.run_batch_row_agree F fadd fsub fmul fdiv fltb fis0 of_Z to_Z fmt_f bits_f json_f
-                parse_f json_s p B chunks HB).
-  rewrite H. reflexivity.
+  apply (lrun_batch_row F fadd fsub fmul fdiv fltb fis0 of_Z to_Z fmt_f bits_f json_f parse_f json_s p B chunks rows HB) in H.
+  unfold lrun_row in *. now rewrite (prepare_sim p obs' _ Fo).
 Qed.
 
 End AggProofs.
@@ -645,20 +713,23 @@ Variable bits_f : F -> bytes.
 Variable json_f : F -> option bytes.
 Variable parse_f : bytes -> option F.
 Variable json_s : bytes -> bytes.
-Variable obs_row : P -> res (Group.pobs F).
-Variable obs_batch : list P -> res (list (Group.pobs F)).
+Variable T : Type.
+Variable t0 : T.
+Variable obs_row : Group.plan F -> T -> P -> res (Group.pobs F * T).
+Variable obs_batch : Group.plan F -> T -> list P -> res (list (Group.pobs F) * T).
 Variable aconv : list (Group.value F) -> Order.row.
 Variable pi pf : bytes -> option Z.
 
 (* the glue hypotheses (all three are theorems for the evaluator twins, section 7):
    FilterBatch is pointwise Filter; the batch projection is pointwise the row projection up to
-   string / []byte; the batch observation of the AggregatePlan is pointwise the row observation
-   up to string / []byte in the GROUP BY values *)
+   string / []byte; what the AggregatePlan evaluates on a chunk in batch mode is what it evaluates
+   on the chunk's pairs one after the other in row mode (from the same keys of aggrMap to the same
+   keys), up to string / []byte in the GROUP BY values *)
 Hypothesis Hf : forall c bs, fbatch c = Ok bs -> Forall2 (fun kv b => frow kv = Ok b) c bs.
 Hypothesis Hp : forall c rs, pbatch c = Ok rs ->
   Forall2 (fun kv r => exists r', prow kv = Ok r' /\ nrow r' = nrow r) c rs.
-Hypothesis Hobs : forall c os, obs_batch c = Ok os ->
-  Forall2 (fun kv o => exists o', obs_row kv = Ok o' /\ pobs_sim F o' o) c os.
+Hypothesis Hobs : forall p t c os t', obs_batch p t c = Ok (os, t') ->
+  exists os', smap_res (obs_row p) t c = Ok (os', t') /\ Forall2 (pobs_sim F) os' os.
 Variable B : nat.
 Hypothesis HB : 1 <= B.
 
@@ -666,12 +737,12 @@ Local Notation slots := (list (option P)).
 Local Notation req := (fun r' r : Order.row => nrow r' = nrow r).
 Local Notation proj_rows := (proj_rows P frow prow).
 Local Notation proj_bats := (proj_bats P fbatch pbatch).
-Local Notation agg_row := (agg_row P frow F fadd fsub fmul fdiv fltb fis0 of_Z to_Z fmt_f bits_f json_f parse_f json_s obs_row).
-Local Notation agg_batch := (agg_batch P fbatch F fadd fsub fmul fdiv fltb fis0 of_Z to_Z fmt_f bits_f json_f parse_f json_s obs_batch).
-Local Notation agg_rows := (agg_rows P frow F fadd fsub fmul fdiv fltb fis0 of_Z to_Z fmt_f bits_f json_f parse_f json_s obs_row aconv).
-Local Notation agg_bats := (agg_bats P fbatch F fadd fsub fmul fdiv fltb fis0 of_Z to_Z fmt_f bits_f json_f parse_f json_s obs_batch aconv).
-Local Notation run_shape_row := (run_shape_row P frow prow F fadd fsub fmul fdiv fltb fis0 of_Z to_Z fmt_f bits_f json_f parse_f json_s obs_row aconv pi pf).
-Local Notation run_shape_batch := (run_shape_batch P fbatch pbatch F fadd fsub fmul fdiv fltb fis0 of_Z to_Z fmt_f bits_f json_f parse_f json_s obs_batch aconv pi pf).
+Local Notation agg_row := (agg_row P frow F fadd fsub fmul fdiv fltb fis0 of_Z to_Z fmt_f bits_f json_f parse_f json_s T t0 obs_row).
+Local Notation agg_batch := (agg_batch P fbatch F fadd fsub fmul fdiv fltb fis0 of_Z to_Z fmt_f bits_f json_f parse_f json_s T t0 obs_batch).
+Local Notation agg_rows := (agg_rows P frow F fadd fsub fmul fdiv fltb fis0 of_Z to_Z fmt_f bits_f json_f parse_f json_s T t0 obs_row aconv).
+Local Notation agg_bats := (agg_bats P fbatch F fadd fsub fmul fdiv fltb fis0 of_Z to_Z fmt_f bits_f json_f parse_f json_s T t0 obs_batch aconv).
+Local Notation run_shape_row := (run_shape_row P frow prow F fadd fsub fmul fdiv fltb fis0 of_Z to_Z fmt_f bits_f json_f parse_f json_s T t0 obs_row aconv pi pf).
+Local Notation run_shape_batch := (run_shape_batch P fbatch pbatch F fadd fsub fmul fdiv fltb fis0 of_Z to_Z fmt_f bits_f json_f parse_f json_s T t0 obs_batch aconv pi pf).
 
 (* ---------------------------------------------------------------- the two children of an order node *)
 Lemma proj_src : forall (c : slots) bs, proj_bats B c = Ok bs ->
@@ -702,7 +773,7 @@ Proof.
   destruct (AggregateProofs.chunks_of_spec (map aconv rows) HB) as (Hc & Hn).
   split; [exact Hn|]. exists (map aconv rows).
   rewrite (agg_batch_row P frow fbatch F fadd fsub fmul fdiv fltb fis0 of_Z to_Z fmt_f bits_f json_f parse_f json_s
-             obs_row obs_batch Hf Hobs B p c rows HB Eb).
+             T t0 obs_row obs_batch Hf Hobs B p c rows HB Eb).
   split; [reflexivity|]. now rewrite Hc.
 Qed.
 
@@ -711,7 +782,8 @@ Proof. reflexivity. Qed.
 
 Lemma agg_done_b all fields : agg_bats B (Group.Plan all fields 0 None) [] = Ok [].
 Proof.
-  unfold SelectPlans.agg_bats, SelectPlans.agg_batch. rewrite drain_batch_nil. reflexivity.
+  unfold SelectPlans.agg_bats, SelectPlans.agg_batch, sdrain_batch. cbn [List.length sdrain_batch_fuel].
+  pose proof (scan_batch_nil P fbatch B HB) as E. unfold slot in E. rewrite E. reflexivity.
 Qed.
 
 (* ---------------------------------------------------------------- LIMIT over the projection *)
@@ -794,10 +866,10 @@ Qed.
    aggregates, with or without ORDER BY, with or without LIMIT), every store, every B >= 1 *)
 Theorem stmt_batch_row (s : stmt F) (sl : slots) outs :
   run_batch P fbatch pbatch F fadd fsub fmul fdiv fltb fis0 of_Z to_Z fmt_f bits_f json_f parse_f json_s
-            obs_batch aconv pi pf B s sl = Ok outs ->
+            T t0 obs_batch aconv pi pf B s sl = Ok outs ->
   exists rows,
     run_row P frow prow F fadd fsub fmul fdiv fltb fis0 of_Z to_Z fmt_f bits_f json_f parse_f json_s
-            obs_row aconv pi pf s sl = Ok rows /\
+            T t0 obs_row aconv pi pf s sl = Ok rows /\
     nrows rows = nrows outs.
 Proof. unfold run_batch, run_row. apply shape_batch_row. Qed.
 
@@ -928,6 +1000,136 @@ Proof.
     split; [reflexivity|]. unfold pobs_sim. cbn [Group.p_g Group.p_k Group.p_a]. auto.
 Qed.
 
+(* the lazy observation: batchGetAggrKeys (ExecuteBatch on the chunk) yields per pair what
+   getAggrKey (Execute) yields, up to string / []byte *)
+Lemma c_batch_g_ok gs : forall c gss, c_batch_g fo re_match gs c = Ok gss ->
+  Forall2 (fun kv g => exists g', evals_row fo re_match gs kv = Ok g' /\
+                                  map (gnorm (F fo)) g' = map (gnorm (F fo)) g) c gss.
+Proof.
+  intros c gss H. unfold c_batch_g in H. apply bind_ok' in H. destruct H as (grows & Eg & H).
+  unfold project_batch in Eg. apply bind_ok' in Eg. destruct Eg as (cols & Ec & Et).
+  pose proof (transpose_ok fo re_match _ _ _ _ (project_cols_ok fo re_match _ _ _ Ec) Et) as Fr.
+  clear Ec Et cols. revert gss H.
+  induction Fr as [|kv grow c grows Fa _ IH]; intros gss H; cbn [gvals_all] in H.
+  - inversion H; constructor.
+  - apply bind_ok' in H. destruct H as (g & Eg & H).
+    apply bind_ok' in H. destruct H as (gs' & Egs & H). inversion H; subst gss.
+    constructor; [|apply IH; exact Egs].
+    exact (evals_agree kv gs grow g Fa Eg).
+Qed.
+
+Lemma c_lobs_batch_ok gs ks args (p : Group.plan (F fo)) t c os t' :
+  c_lobs_batch fo re_match ag gs ks args p t c = Ok (os, t') ->
+  exists os', smap_res (c_lobs_row fo re_match ag gs ks args p) t c = Ok (os', t') /\
+              Forall2 (pobs_sim (F fo)) os' os.
+Proof.
+  unfold c_lobs_batch, c_lobs_row. intros H.
+  exact (lobs_batch_ok kvpair (F fo) (f_fmt fo) (a_bits fo ag) (evals_row fo re_match gs) (c_batch_g fo re_match gs)
+           (evals_row fo re_match ks) (fun need => evals_need fo re_match need 0 args) (c_batch_g_ok gs) p t c os t' H).
+Qed.
+
+(* ---- the lazy observation against the eager one: where the eager observation of a pair
+   succeeds, the lazy one succeeds with the blanked observation *)
+Lemma evals_need_mask need : forall args i kv a,
+  evals_row fo re_match args kv = Ok a ->
+  evals_need fo re_match need i args kv = Ok (mask_from (F fo) need i a).
+Proof.
+  induction args as [|e args IH]; intros i kv a H; cbn [evals_row evals_need] in *.
+  - inversion H. reflexivity.
+  - apply bind_ok' in H. destruct H as (v & Ev & H).
+    apply bind_ok' in H. destruct H as (g & Eg & H).
+    apply bind_ok' in H. destruct H as (gs' & Egs & H). inversion H; subst a.
+    cbn [mask_from]. rewrite (IH _ _ _ Egs). destruct (need i).
+    + rewrite Ev. cbn [bind]. rewrite Eg. reflexivity.
+    + reflexivity.
+Qed.
+
+Lemma c_lobs_row_blank gs ks args (p : Group.plan (F fo)) t kv o :
+  c_obs_row fo re_match gs ks args kv = Ok o ->
+  c_lobs_row fo re_match ag gs ks args p t kv = Ok (blank (F fo) (f_fmt fo) (a_bits fo ag) p t o).
+Proof.
+  unfold c_obs_row. intros H.
+  apply bind_ok' in H. destruct H as (g & Eg & H).
+  apply bind_ok' in H. destruct H as (k & Ek & H).
+  apply bind_ok' in H. destruct H as (a & Ea & H). inversion H; subst o.
+  unfold c_lobs_row, lobs_row, lobs_tail, blank. cbn [Group.p_g Group.p_k Group.p_a].
+  rewrite Eg, Ek, (evals_need_mask _ _ 0 _ _ Ea).
+  destruct (Group.pl_all p); cbn [bind];
+    match goal with |- context [seen_mem ?key t] => destruct (seen_mem key t) end; reflexivity.
+Qed.
+
+Local Notation c_tail ks args := (lobs_tail (f_fmt fo) (a_bits fo ag) (evals_row fo re_match ks)
+                                              (fun need => evals_need fo re_match need 0 args)).
+Local Notation c_blank := (blank (F fo) (f_fmt fo) (a_bits fo ag)).
+
+Lemma lobs_tail_blank ks args (p : Group.plan (F fo)) t kv g k a :
+  evals_row fo re_match ks kv = Ok k -> evals_row fo re_match args kv = Ok a ->
+  c_tail ks args p t kv (if Group.pl_all p then [] else g) = Ok (c_blank p t (Group.PObs g k a)).
+Proof.
+  intros Ek Ea. unfold lobs_tail, blank. cbn [Group.p_g Group.p_k Group.p_a].
+  rewrite Ek, (evals_need_mask _ _ 0 _ _ Ea).
+  match goal with |- context [seen_mem ?key t] => destruct (seen_mem key t) end; reflexivity.
+Qed.
+
+(* batch mode: the eager observation of a chunk, made lazy *)
+Lemma obs_zip_lazy ks args (p : Group.plan (F fo)) : forall ch grows t os,
+  List.length grows = List.length ch ->
+  obs_zip fo re_match ks args ch grows = Ok os ->
+  exists gss, gvals_all fo grows = Ok gss /\
+    lobs_zip (f_fmt fo) (a_bits fo ag) (evals_row fo re_match ks) (fun need => evals_need fo re_match need 0 args)
+             p t ch (map (fun g => if Group.pl_all p then [] else g) gss) =
+    Ok (thread _ _ _ (c_blank p) t os, tstate _ _ _ (c_blank p) t os).
+Proof.
+  induction ch as [|kv ch IH]; intros grows t os Hl H.
+  - destruct grows; [|discriminate Hl]. cbn in H. inversion H; subst os. exists []. split; reflexivity.
+  - destruct grows as [|grow grows]; [discriminate Hl|]. cbn [obs_zip] in H.
+    apply bind_ok' in H. destruct H as (g & Eg & H).
+    apply bind_ok' in H. destruct H as (k & Ek & H).
+    apply bind_ok' in H. destruct H as (a & Ea & H).
+    apply bind_ok' in H. destruct H as (rest & Er & H). inversion H; subst os.
+    destruct (IH grows (snd (c_blank p t (Group.PObs g k a))) rest ltac:(cbn in Hl; lia) Er) as (gss & Egs & Ez).
+    exists (g :: gss). split.
+    + cbn [gvals_all]. rewrite Eg. cbn [bind]. rewrite Egs. reflexivity.
+    + cbn [map lobs_zip]. rewrite (lobs_tail_blank ks args p t kv g k a Ek Ea). cbn [bind].
+      rewrite Ez. reflexivity.
+Qed.
+
+Lemma all_nil_map {X Y} (ch : list X) (gss : list (list Y)) : List.length gss = List.length ch ->
+  map (fun _ : X => @nil Y) ch = map (fun _ : list Y => @nil Y) gss.
+Proof.
+  revert gss. induction ch as [|x ch IH]; intros [|g gss] H; cbn in *; try discriminate; [reflexivity|].
+  f_equal. apply IH. lia.
+Qed.
+
+Lemma gvals_all_length : forall grows gss, gvals_all fo grows = Ok gss -> List.length gss = List.length grows.
+Proof.
+  induction grows as [|g grows IH]; intros gss H; cbn [gvals_all] in H.
+  - inversion H. reflexivity.
+  - apply bind_ok' in H. destruct H as (x & _ & H). apply bind_ok' in H. destruct H as (xs & Exs & H).
+    inversion H; subst. cbn. f_equal. now apply IH.
+Qed.
+
+Lemma c_lobs_batch_blank gs ks args (p : Group.plan (F fo)) t ch os :
+  c_obs_batch fo re_match gs ks args ch = Ok os ->
+  c_lobs_batch fo re_match ag gs ks args p t ch =
+  Ok (thread _ _ _ (c_blank p) t os, tstate _ _ _ (c_blank p) t os).
+Proof.
+  unfold c_obs_batch. intros H. apply bind_ok' in H. destruct H as (grows & Eg & H).
+  assert (Hl : List.length grows = List.length ch).
+  { unfold project_batch in Eg. apply bind_ok' in Eg. destruct Eg as (cols & Ec & Et).
+    pose proof (transpose_ok fo re_match _ _ _ _ (project_cols_ok fo re_match _ _ _ Ec) Et) as Fr.
+    clear - Fr. induction Fr; cbn; [reflexivity | now f_equal]. }
+  destruct (obs_zip_lazy ks args p ch grows t os Hl H) as (gss & Egs & Ez).
+  unfold c_lobs_batch, lobs_batch, c_batch_g.
+  destruct (Group.pl_all p) eqn:Ea.
+  - cbn [bind]. rewrite (all_nil_map ch gss) by (rewrite (gvals_all_length _ _ Egs); exact Hl). exact Ez.
+  - rewrite Eg. cbn [bind]. rewrite Egs. cbn [bind]. rewrite map_id in Ez. exact Ez.
+Qed.
+
+Lemma thread_blank (p : Group.plan (F fo)) : forall l t,
+  thread _ _ _ (blank (F fo) (f_fmt fo) (a_bits fo ag) p) t l = blank_all (F fo) (f_fmt fo) (a_bits fo ag) p t l.
+Proof. induction l as [|o l IH]; intros t; cbn [thread blank_all]; [reflexivity | now rewrite IH]. Qed.
+
 (* ---------------------------------------------------------------- the theorems for checked statements *)
 Variable pi pf : bytes -> option Z.
 
@@ -943,7 +1145,7 @@ Proof.
   eapply shape_batch_row; eauto.
   - intros c bs Hc. exact (filter_batch_ok fo re_match _ c bs Hc).
   - apply c_pbatch_ok. exact Hok.
-  - apply c_obs_batch_ok.
+  - intros p t c os t'. apply c_lobs_batch_ok.
 Qed.
 
 Theorem select_stmt_batch_row (B : nat) (q : cstmt fo) (sl : list (option kvpair)) outs :
@@ -975,7 +1177,44 @@ Proof.
   intros HB H. unfold select_agg_batch, select_agg_row in *.
   eapply agg_batch_row; eauto.
   - intros c bs Hc. exact (filter_batch_ok fo re_match _ c bs Hc).
-  - apply c_obs_batch_ok.
+  - intros p' t c os t'. apply c_lobs_batch_ok.
+Qed.
+
+(* the lazy composition refines the eager one (row mode): wherever the eager composition -- all
+   three groups of expressions evaluated on every pair, every group completed -- answers with
+   rows, the composition with Go's evaluation discipline answers with the same rows *)
+Theorem select_agg_row_refines q (p : Group.plan (F fo)) sl rows :
+  select_agg_row_eager fo re_match ag q p sl = Ok rows -> select_agg_row fo re_match ag q p sl = Ok rows.
+Proof.
+  unfold select_agg_row_eager, select_agg_row, SelectPlans.agg_row. intros H.
+  apply bind_ok' in H. destruct H as (obs & Ed & H). apply of_exec_ok in H.
+  rewrite (sdrain_row_of_drain _ _ _ _ _ _ _ _
+             (fun t kv o => c_lobs_row_blank (q_group fo q) (q_keys fo q) (q_args fo q) p t kv o) [] sl obs Ed).
+  cbn [bind]. rewrite thread_blank. unfold lrun_row. rewrite prepare_blank.
+  apply (lrun_row_refines (F fo)). exact H.
+Qed.
+
+(* ... and in batch mode, every B >= 1 *)
+Theorem select_agg_batch_refines B q (p : Group.plan (F fo)) sl rows : 1 <= B ->
+  select_agg_batch_eager fo re_match ag B q p sl = Ok rows -> select_agg_batch fo re_match ag B q p sl = Ok rows.
+Proof.
+  unfold select_agg_batch_eager, select_agg_batch, SelectPlans.agg_batch. intros HB H.
+  apply bind_ok' in H. destruct H as (chunks & Ed & H). apply of_exec_ok in H.
+  (* an eager observation of a non-empty chunk is not empty *)
+  assert (Hne : forall c, c_obs_batch fo re_match (q_group fo q) (q_keys fo q) (q_args fo q) c = Ok [] -> c = []).
+  { intros c Hc. unfold c_obs_batch in Hc. apply bind_ok' in Hc. destruct Hc as (grows & Eg & Hc).
+    destruct c as [|kv c]; [reflexivity|]. exfalso.
+    destruct grows as [|grow grows]; cbn [obs_zip] in Hc; [discriminate|].
+    apply bind_ok' in Hc. destruct Hc as (? & _ & Hc). apply bind_ok' in Hc. destruct Hc as (? & _ & Hc).
+    apply bind_ok' in Hc. destruct Hc as (? & _ & Hc). apply bind_ok' in Hc. destruct Hc as (? & _ & Hc).
+    discriminate Hc. }
+  rewrite (sdrain_batch_of_drain _ _ _ _ _ _ _ _
+             (fun t c rs => c_lobs_batch_blank (q_group fo q) (q_keys fo q) (q_args fo q) p t c rs)
+             Hne B [] sl chunks Ed).
+  cbn [bind]. unfold lrun_batch.
+  rewrite AggregateProofs.prepare_batch_row, threadc_concat, thread_blank, prepare_blank.
+  rewrite <- AggregateProofs.prepare_batch_row.
+  apply (lrun_batch_refines (F fo)); assumption.
 Qed.
 
 (* ... GROUP BY ... ORDER BY ... ([q_fields] plays no role in this plan; [None] will do) *)
